@@ -424,6 +424,13 @@ def structural_kinds_check(chk, story, replay, stats):
 # ------------------------------------------------------------------------------------------------
 
 PINNED_JOIN = ":: Start\nA\n+ [Go on] -> @join\n    block\n@join\nB\n+ [Again] -> Start\n"
+# the reserved target at every position the walk visits (passage level, @if, @for, nested)
+JOIN_POSITIONS = [
+    ":: Start\nA\n@for i in [1, 2]:\n    item {i}\n    + [Take {i}] -> @join\n@endfor\n@join\nB\n+ [Again] -> Start\n",
+    ":: Start\nA\n@if True:\n    + [In if] -> @join\n@endif\n@join\nB\n+ [Again] -> Start\n",
+    ":: Start\nA\n@if True:\n    @for i in [1]:\n        + [Deep {i}] -> @join\n    @endfor\n@endif\n@join\nB\n+ [Again] -> Start\n",
+    ":: Start\nA\n@for i in [1]:\n    @if i:\n        + [Deep2] -> @join\n    @else:\n        + [Other] -> Start\n    @endif\n@endfor\n@join\nB\n+ [Again] -> Start\n",
+]
 
 
 def edit_undefined(story, r):
@@ -493,6 +500,13 @@ def run(tier: str, seed: int) -> int:
         # pinned witness of F18a (reported by signature; fixed tree: nothing is reported)
         story = R.compile_story(PINNED_JOIN)
         add_case(story, PINNED_JOIN, 0, True, "pinned-join")
+        for k_join, src_join in enumerate(JOIN_POSITIONS):
+            try:
+                st_join = R.compile_story(src_join)
+            except Exception:  # noqa
+                stats["compile_failed"] += 1
+                continue
+            add_case(st_join, src_join, k_join + 1, True, "join-position")
 
         # (c) emitted kinds
         emitted_kinds_phase(chk, stats)
